@@ -205,6 +205,11 @@ def run(ctx):
         if all(a[0] == 'timeout' for a in again):
             ctx.violation('time-%s' % cj['family'], cj, 'no result within %.1fs (limit scales with n^2), 3 attempts' % (2 * time_limit(cj)), KNOWN_PRED)
     ctx.extra['input_distribution'] = fam
+    # tie of Model/Slice.v + Model/Blocks.v: the implementation's slicing trace on malformed texts
+    from harness import slicing
+    texts = [c['input'] for c in cases if c['kind'] in ('sheet', 'style') and c['family'] in ('soup', 'trunc', 'state-x-token')]
+    agree = slicing.correspondence(ctx, texts[:250 if ctx.tier == 'quick' else 5000])
+    ctx.extra['correspondence'] = {'slicing_checks_agree_total': agree}
     ctx.sample({k: v for k, v in cases[len(cases) // 3].items()})
     ctx.sample({k: v for k, v in cases[-1].items()})
 
